@@ -296,6 +296,16 @@ func reencode(t *rapid.T, v *hx.JV, label string) ([]byte, bool) {
 
 var safeIDRe = regexp.MustCompile(`^[A-Za-z0-9.-]+$`)
 
+// graphKey is the canonical form of the parsed *graph* (nodes with all their attributes, edges, root elements): the
+// statement speaks of "equivalent graphs with identical identifiers"; document-level metadata (a generated serial
+// number, a default date) is outside it.
+func graphKey(d *sbom.Document) string {
+	if d == nil {
+		return "<nil>"
+	}
+	return hx.RefKey(d.GetNodeList(), false)
+}
+
 func parseAuto(data []byte) (*sbom.Document, error) { return readDoc(data) }
 func parseAs(data []byte, f formats.Format) (*sbom.Document, error) {
 	return reader.New().ParseStreamWithOptions(bytes.NewReader(data), &reader.Options{Format: f})
@@ -352,14 +362,13 @@ func c05Property(t *rapid.T) {
 				if !safeIDRe.MatchString(id) {
 					t.Fatalf("generated identifier %q contains characters outside the identifier-safe alphabet", id)
 				}
-			} else if id != "DOCUMENT" && id != "SPDXRef-DOCUMENT" {
-				// (the document element is declared by every SPDX document: a node standing for it invents nothing)
-				t.Fatalf("SPDX parse produced node %q that the input does not declare\n%s", id, trunc(string(base), 2000))
 			}
+			// (nodes beyond the declared elements — a node for the document element, placeholders for elements of other
+			// documents — are not excluded by the statement)
 		}
 	}
-	if g.Kind == "cyclonedx" && distinct && generated != g.NoRef {
-		t.Fatalf("%d components lack a bom-ref but %d identifiers were generated (not unique, or colliding with declared ones)\n%s", g.NoRef, generated, trunc(string(base), 2500))
+	if g.Kind == "cyclonedx" && distinct && generated < g.NoRef {
+		t.Fatalf("%d components lack a bom-ref but only %d identifiers were generated (not unique, or colliding with declared ones)\n%s", g.NoRef, generated, trunc(string(base), 2500))
 	}
 	for d := range declared {
 		if ids[d] == 0 {
@@ -371,15 +380,15 @@ func c05Property(t *rapid.T) {
 			t.Fatalf("every reference of the input resolves, yet the parsed graph is not closed: %v\n graph: %s\n input: %s", err, hx.DescribeNL(nl), trunc(string(base), 2500))
 		}
 	}
-	key := hx.RefKey(doc, false)
+	key := graphKey(doc)
 	// same bytes twice
 	doc2, err := parseAuto(base)
-	if err != nil || hx.RefKey(doc2, false) != key {
-		t.Fatalf("parsing the same bytes twice gives different results (err=%v)\n first : %s\n second: %s", err, trunc(key, 1500), trunc(hx.RefKey(doc2, false), 1500))
+	if err != nil || graphKey(doc2) != key {
+		t.Fatalf("parsing the same bytes twice gives different results (err=%v)\n first : %s\n second: %s", err, trunc(key, 1500), trunc(graphKey(doc2), 1500))
 	}
 	// explicit format
 	doc3, err := parseAs(base, g.Format)
-	if err != nil || hx.RefKey(doc3, false) != key {
+	if err != nil || graphKey(doc3) != key {
 		t.Fatalf("parsing with the format stated explicitly (%s) differs from auto-detection (err=%v)", g.Format, err)
 	}
 	// re-encodings of the same JSON value
@@ -391,7 +400,7 @@ func c05Property(t *rapid.T) {
 		if err != nil {
 			t.Fatalf("a re-encoding of the same JSON value is rejected: %v\n%s", err, trunc(string(enc), 2000))
 		}
-		if k := hx.RefKey(d, false); k != key {
+		if k := graphKey(d); k != key {
 			t.Fatalf("a re-encoding of the same JSON value (white space / member order / string escapes) parses differently:\n base   : %s\n variant: %s\n encoding: %s", trunc(key, 1800), trunc(k, 1800), trunc(string(enc), 1500))
 		}
 	}
@@ -427,14 +436,11 @@ func c05IdentifierProperty(t *rapid.T) {
 	if id == "" || !safeIDRe.MatchString(id) {
 		t.Fatalf("NewNodeIdentifier(%q) = %q is empty or leaves the identifier-safe alphabet", seeds, id)
 	}
-	// a seed is usable when it is not consumed as a leading flag and is non-empty
-	// a seed is usable when it is non-empty and not consumed as a flag ("auto"/"node" before any usable seed)
+	// "usable seed" is not defined by the statement: determinism is asserted where no reading can deny it — some
+	// seed that is not a flag word carries a letter or digit (a blank or punctuation-only seed may be treated as none)
 	valid := 0
 	for _, s := range seeds {
-		if (s == "auto" || s == "node") && valid == 0 {
-			continue
-		}
-		if s != "" {
+		if s != "auto" && s != "node" && strings.ContainsAny(s, "abcdefghijklmnopqrstuvwxyzABCDEFGHIJKLMNOPQRSTUVWXYZ0123456789") {
 			valid++
 		}
 	}
@@ -445,9 +451,6 @@ func c05IdentifierProperty(t *rapid.T) {
 			t.Fatalf("NewNodeIdentifier(%q) is not reproducible: %q then %q", seeds, id, id2)
 		}
 		hx.NonTrivial(hx.Digest("id", fmt.Sprintf("%q", seeds)))
-	}
-	if !strings.HasPrefix(id, "protobom-") {
-		t.Fatalf("NewNodeIdentifier(%q) = %q lacks the reserved prefix", seeds, id)
 	}
 }
 
@@ -496,7 +499,7 @@ func TestC05Real(t *testing.T) {
 			hx.Class("real:rejected")
 			continue
 		}
-		key := hx.RefKey(doc, false)
+		key := graphKey(doc)
 		if strings.Contains(key, "protobom-") && strings.Contains(doc.Metadata.GetId(), "/protobom-") {
 			hx.Excluded("real_spdx_without_namespace(random document id by design)")
 			continue
@@ -514,7 +517,7 @@ func TestC05Real(t *testing.T) {
 				hx.RecordFailure("C05Real", fmt.Sprintf("re-encoding of %s rejected: %v", path, err), map[string]any{"file": path, "variant": i})
 				t.Fatalf("re-encoding %d of %s is rejected: %v", i, path, err)
 			}
-			if k := hx.RefKey(d, false); k != key {
+			if k := graphKey(d); k != key {
 				hx.RecordFailure("C05Real", fmt.Sprintf("re-encoding of %s parses differently", path), map[string]any{"file": path, "variant": i})
 				t.Fatalf("re-encoding %d of %s parses differently (first difference near %q)", i, path, firstDiff(key, k))
 			}
@@ -584,8 +587,8 @@ func c05RealMutated(data []byte, seed int) string {
 			return fmt.Sprintf("every reference of the input resolves, yet the parsed graph is not closed: %v", err)
 		}
 	}
-	key := hx.RefKey(doc, false)
-	if d2, err := parseAuto(mutated); err != nil || hx.RefKey(d2, false) != key {
+	key := graphKey(doc)
+	if d2, err := parseAuto(mutated); err != nil || graphKey(d2) != key {
 		return fmt.Sprintf("parsing the same bytes twice gives different results (err=%v)", err)
 	}
 	for i, enc := range [][]byte{enc1, enc2} {
@@ -593,7 +596,7 @@ func c05RealMutated(data []byte, seed int) string {
 		if err != nil {
 			return fmt.Sprintf("re-encoding %d is rejected although the document itself parses: %v", i, err)
 		}
-		if k := hx.RefKey(d, false); k != key {
+		if k := graphKey(d); k != key {
 			return fmt.Sprintf("re-encoding %d parses differently (first difference near %q)", i, firstDiff(key, k))
 		}
 	}
